@@ -454,7 +454,7 @@ def run_C03(rng, tier):
             d = mk_view(rng, name)
             n = d[1]
             K = 2 * n if C03_K[name] == "2n" else n + C03_K[name]
-        if name != "Pfe" and i % 4 == 3:
+        if name not in ("Pfe", "MyRsi", "Roc") and i % 4 == 3:      # (the hold exceptions of MyRSI / Roc are decided on raw inputs: stand-alone only)
             m_ = 2 + rng.below(3)
             d = d[:-1] + (("Sma", m_, E),)          # W over Sma(m): memory K_W + m - 1
             K = K + m_ - 1
